@@ -25,6 +25,15 @@ C03 driver: replays a harness trace of two real `LightningChannel`s with reconne
   reestablish-wire   the channel_reestablish the peer decodes differs from the one ChanSyncMsg built
                      (heights, last secret, commit point, taproot nonces; a sender without the
                      data-loss-protect fields conveys the two heights)
+  dlp-answer         (forged / stale channel_reestablish, `Q` lines) the peer claims a revocation
+                     height beyond the node's own local chain tail and ProcessChanSyncMsg still
+                     answers ok (it would retransmit from a state the peer proves to be ahead of)
+  dlp-class          the peer proves to be ahead (own revocation secret for the claimed height +
+                     commit point) and the answer is an error other than ErrCommitSyncLocalDataLoss
+  dlp-stale-peer     the peer waits for a commitment it has already revoked (it lost state) and the
+                     answer is not ErrCommitSyncRemoteDataLoss
+  dlp-point          ErrCommitSyncLocalDataLoss does not carry the commit point of the message
+                     (MarkDataLoss would store a point that cannot recover the funds)
   + all C01 clauses (conservation, capacity, tx-outputs, balance-moves, mirror-signed,
     mirror-idle with byte-equal transactions, commit-stable across restarts, internal-error)
 -/
@@ -33,6 +42,7 @@ import LndModel.C01.Model
 import LndModel.C03.Model
 import LndModel.C03.Wire
 import LndModel.C03.Mirror
+import LndModel.C03.Dlp
 import LndModel.C03.LinkDriver
 
 open LndModel LndModel.Lines LndModel.C01 LndModel.C03
@@ -254,6 +264,11 @@ structure St where
   pCount : Nat := 0
   signFailed : Nat := 0
   orderBoth : Nat := 0
+  -- C03 round 7: forged / stale channel_reestablish probes
+  probes : Nat := 0
+  probeChecks : Nat := 0
+  probeAhead : Nat := 0
+  probeResigns : Nat := 0
 
 def bump (l : List (String × Nat)) (k : String) : List (String × Nat) :=
   match l.find? (·.1 == k) with
@@ -1102,6 +1117,86 @@ def processLine (s : St) (ws : List String) : IO St := do
       s := if node == "A" then { s with qab := s.qab ++ wire } else { s with qba := s.qba ++ wire }
     return s
 
+
+/-- `Q`: a forged / stale channel_reestablish handed to the real `ProcessChanSyncMsg` of a freshly
+    restarted node: the whole decision table, error arms included, and the state every arm
+    leaves behind (the dump that follows is compared with the model's state at the next flush). -/
+def probeLine (s : St) (ws : List String) : IO St := do
+  let mut s ← flush s
+  let node := ws[1]?.getD ""
+  let impl := resOf ws
+  s := readQ { s with ops := s.ops + 1, probes := s.probes + 1, dirty := [node] } ws
+  s := { s with errKinds := bump s.errKinds ("probe_" ++ (impl.splitOn ":").headD "?") }
+  let toks := match (kv? ws "msgs").getD "-" with
+    | "-" => []
+    | l => l.splitOn ","
+  let restored := (kvNat? ws "restored").getD 0 == 1
+  let honest := (kv? ws "kind") == some "honest"
+  let msg := reestOfLine ws ((kvNat? ws "nl").getD 0)
+  -- the implementation's own state before the call (dump of the restart that precedes the probe)
+  let d := if node == "A" then s.dA else s.dB
+  let implLt := ((d.chainOf .loc).head?.map (·.cm.height)).getD 0
+  if impl.startsWith "signFailed:" && constraintErr ((impl.drop 11).toString) then
+    let n := if node == "A" then s.mA else s.mB
+    s := { s with signFailed := s.signFailed + 1, dead := true }
+    if s.modelOk && n.sign.1.toString != (impl.drop 11).toString then
+      s ← mismatch s s!"node={node} re-sign inside processSync (probe): model={n.sign.1.toString} impl={impl}"
+    return s
+  -- (S) monitor ---------------------------------------------------------
+  if msg.remoteTail > implLt then
+    s := { s with probeAhead := s.probeAhead + 1 }
+    if impl == "ok" then
+      s ← monitor s "dlp-answer" s!"node={node} local chain tail {implLt}, the peer claims revocation height {msg.remoteTail} (secret={(kv? ws "sec").getD "?"}) and ProcessChanSyncMsg answers ok msgs={toks}: retransmission from a state the peer is ahead of"
+  -- the peer PROVES it: the data-loss-protect fields are there and the secret is the node's own
+  -- revocation secret for the claimed height
+  let proven := msg.remoteTail > implLt && msg.point.isSome && msg.lastSecret == some (msg.remoteTail - 1)
+  if proven && !restored && impl != "localDataLoss" && impl != "noNonce" && impl != "ok" then
+    s ← monitor s "dlp-class" s!"node={node} local chain tail {implLt}, the peer proves revocation height {msg.remoteTail} and ProcessChanSyncMsg answers {impl} instead of ErrCommitSyncLocalDataLoss (the link would not record the peer's commit point)"
+  -- the PEER lost state: it waits for a commitment it has already revoked (the node holds that
+  -- revocation), nothing else is wrong with the message
+  let implRt := ((d.chainOf .rem).head?.map (·.cm.height)).getD 0
+  let secretFine := msg.point.isNone || msg.remoteTail == 0 || msg.lastSecret == some (msg.remoteTail - 1)
+  if msg.nextLocal ≤ implRt && msg.remoteTail ≤ implLt && secretFine && !restored &&
+      impl != "remoteDataLoss" && impl != "noNonce" then
+    s ← monitor s "dlp-stale-peer" s!"node={node} remote chain tail {implRt}, the peer waits for commitment {msg.nextLocal} which it has already revoked, and ProcessChanSyncMsg answers {impl} msgs={toks} instead of ErrCommitSyncRemoteDataLoss"
+  if restored && impl == "ok" then
+    s ← monitor s "dlp-answer" s!"node={node} the channel carries ChanStatusRestored (state from a static backup) and ProcessChanSyncMsg answers ok msgs={toks}"
+  if impl == "localDataLoss" && (kv? ws "lcp") != some "ok" then
+    s ← monitor s "dlp-point" s!"node={node} ErrCommitSyncLocalDataLoss does not carry the commit point of the channel_reestablish"
+  if honest && !restored && impl != "ok" then
+    s ← monitor s "sync-error" s!"node={node} ProcessChanSyncMsg => {impl} on the honest peer's channel_reestablish"
+  -- (X) model -----------------------------------------------------------
+  if !s.skOk then return s
+  let sk := skOf s node
+  let (sk', r) := sk.processReestSt s.tweakless s.cfgA.taproot restored msg
+  let mcls := match r with
+    | .ok _ => "ok"
+    | .error e => e.toString
+  let out := match r with
+    | .ok o => o
+    | .error _ => []
+  s := { s with probeChecks := s.probeChecks + 1 }
+  if mcls != impl then
+    s ← mismatch s s!"node={node} ProcessChanSyncMsg decision table: model={mcls} impl={impl} msg={reestTok msg} restored={restored} state=[lt={sk.lt} rt={sk.rt} rp={repr sk.rp} lwr={sk.lwr} owe={sk.owe}]"
+    return { s with skOk := false, modelOk := false }
+  let kinds := out.map fun m => match m with | .upd _ => "upd" | .sig .. => "sig" | .rev _ => "rev"
+  let gotKinds := toks.map fun t => let k := tokKind t; if k == "sig" || k == "rev" then k else "upd"
+  if kinds != gotKinds then
+    s ← mismatch s s!"node={node} ProcessChanSyncMsg (probe) skeleton returns {repr out}, impl {toks}"
+    return { s with skOk := false, modelOk := false }
+  s := setSk s node sk'
+  -- a re-sign of the "owe revocation" arm stays in the channel, also when the call fails later
+  if sk'.rp != sk.rp then
+    s := { s with probeResigns := s.probeResigns + 1 }
+    if s.modelOk then
+      let n := if node == "A" then s.mA else s.mB
+      let (e, n2, _) := n.sign
+      if e != .ok then
+        s ← mismatch s s!"node={node} probe re-sign: C01 model refuses to sign ({e.toString})"
+      else
+        s := setNode s node n2
+  return s
+
 def b01 (ws : List String) (k : String) : Bool := (kvNat? ws k).getD 0 == 1
 
 def step (s : St) (line : String) : IO St := do
@@ -1169,6 +1264,7 @@ def step (s : St) (line : String) : IO St := do
   | "YW" :: _ => syncWireLine s ws
   | "W" :: _ => wireLine s ws
   | "P" :: _ => processLine s ws
+  | "Q" :: _ => probeLine s ws
   | "D" :: _ => deliverLine s ws
   | "A" :: _ => opLine s "A" ws
   | "B" :: _ => opLine s "B" ws
@@ -1190,7 +1286,7 @@ def main (args : List String) : IO Unit := do
   IO.println s!"STAT lines={s.lines}"
   IO.println s!"STAT cases={s.cases}"
   IO.println s!"STAT evaluations={s.ops}"
-  IO.println s!"STAT nontrivial={s.commitsChecked + s.sigsVerified + s.idleChecks + s.retxChecks + s.reloadChecks}"
+  IO.println s!"STAT nontrivial={s.commitsChecked + s.sigsVerified + s.idleChecks + s.retxChecks + s.reloadChecks + s.probeChecks}"
   IO.println s!"STAT commitments_checked={s.commitsChecked}"
   IO.println s!"STAT balance_moves_checked={s.balanceMoves}"
   IO.println s!"STAT signatures_made={s.signs}"
@@ -1215,6 +1311,10 @@ def main (args : List String) : IO Unit := do
   IO.println s!"STAT wire_reestablish_before_first_revocation={s.wireReestTail0}"
   IO.println s!"STAT wire_reestablish_legacy_encoding={s.wireReestLegacy}"
   IO.println s!"STAT wire_reestablish_with_nonce={s.wireReestNonce}"
+  IO.println s!"STAT dlp_probes={s.probes}"
+  IO.println s!"STAT dlp_decision_table_checks={s.probeChecks}"
+  IO.println s!"STAT dlp_peer_ahead_probes={s.probeAhead}"
+  IO.println s!"STAT dlp_probe_resigns={s.probeResigns}"
   IO.println s!"STAT skeleton_state_checks={s.skelChecks}"
   IO.println s!"STAT index_invariant_checks={s.inv2Checks}"
   IO.println s!"STAT restart_checks={s.reloadChecks}"
